@@ -42,6 +42,8 @@ impl Cfg {
             "static-stream" => "static-stream",
             "fanout" => "fanout",
             "sender-dropped" => "sender-dropped",
+            "inserted-key" => "inserted-key",
+            "deep-chain" => "deep-chain",
             _ => "none",
         };
         Cfg {
@@ -195,7 +197,7 @@ fn child_sender_dropped(args: &Args, mut rep: Report, cfg: &Cfg) -> Report {
                 });
             }
             while done_calls.load(SeqCst) < drop_after {
-                std::hint::spin_loop();
+                crate::util::pause();
             }
             if let Some(sd) = &sender {
                 let _ = sd.send(OwnedDirEntry::File("x".into(), "a".into()));
@@ -244,6 +246,20 @@ fn child(args: &Args, mut rep: Report, cfg: &Cfg) -> Report {
             mem.write("m.b", "n0", b"load L10t shared.s0 peek N0 m.a");
             mem.write("m.d", "n0", b"peek N0 m.b load L10t shared.s1");
         }
+        // 1500 compounds, each looking up the previous one: the dependency graph is a chain as
+        // long as that, walked recursively when its first link changes
+        "deep-chain" => {
+            mem.write("ch.n0", "n0", b"file shared.s0 a");
+            for k in 1..1500 {
+                mem.write(&format!("ch.n{k}"), "n0", format!("peek N0 ch.n{}", k - 1).as_bytes());
+            }
+        }
+        // keys the dependency graph knows (load_owned) but whose entry was stored by hand
+        "inserted-key" => {
+            for i in 0..cfg.callers {
+                mem.write(&format!("ik.c{i}"), "a", b"ik0");
+            }
+        }
         // every caller owns a compound whose reloads load 60..220 assets that were never loaded
         // before: the reloader thread then registers assets with itself while it is reloading
         "fanout" => {
@@ -270,6 +286,18 @@ fn child(args: &Args, mut rep: Report, cfg: &Cfg) -> Report {
     } else {
         vec![]
     };
+    if cfg.shape == "deep-chain" {
+        for k in 0..1500 {
+            let _ = cache.load::<Node<0>>(&format!("ch.n{k}"));
+        }
+    }
+    if cfg.shape == "inserted-key" {
+        for i in 0..cfg.callers {
+            let id = format!("ik.c{i}");
+            let _ = cache.load_owned::<Leaf<1, 0, true>>(&id);
+            let _ = cache.get_or_insert::<Leaf<1, 0, true>>(&id, <Leaf<1, 0, true> as FromN>::from_n(5));
+        }
+    }
     if cfg.shape == "static-stream" {
         mem.write("echo", "a", b"e");
         let _ = cache.load::<Echo>("echo");
@@ -277,7 +305,7 @@ fn child(args: &Args, mut rep: Report, cfg: &Cfg) -> Report {
         ECHO_ON.store(true, SeqCst);
         mem.notify_file("echo", "a");
     }
-    if cfg.shape != "none" && cfg.shape != "static" && cfg.shape != "static-stream" {
+    if !matches!(cfg.shape, "none" | "static" | "static-stream" | "deep-chain" | "inserted-key") {
         for id in ["m.a", "m.b", "m.c", "m.d", "m.a", "m.b"] {
             if mem.get(id, "n0").is_some() {
                 let _ = cache.load::<Node<0>>(id);
@@ -315,6 +343,10 @@ fn child(args: &Args, mut rep: Report, cfg: &Cfg) -> Report {
                     let content = leaf_content(i, g);
                     mem.write(&id, "a", content.as_bytes());
                     mem.notify_file(&id, "a");
+                    if shape == "inserted-key" {
+                        mem.write(&format!("ik.c{i}"), "a", format!("ik{g}").as_bytes());
+                        mem.notify_file(&format!("ik.c{i}"), "a");
+                    }
                     let mut fan_want = None;
                     if shape == "fanout" && g % 4 == 0 {
                         let n = fr.range(60, 220);
@@ -328,7 +360,7 @@ fn child(args: &Args, mut rep: Report, cfg: &Cfg) -> Report {
                         mem.notify_file(&format!("fan.n{i}"), "n0");
                         fan_want = Some(n);
                     }
-                    if shape != "none" && shape != "static" && shape != "static-stream" && shape != "fanout" && g % 3 == 0 {
+                    if shape != "none" && shape != "static" && shape != "static-stream" && shape != "fanout" && shape != "inserted-key" && g % 3 == 0 {
                         // touch the cyclic part of the graph too
                         mem.write("shared.s0", "a", format!("shared0-{i}-{g}").as_bytes());
                         mem.notify_file("shared.s0", "a");
@@ -403,6 +435,13 @@ fn child(args: &Args, mut rep: Report, cfg: &Cfg) -> Report {
             let mut r = base.sub(77);
             s.spawn(move || {
                 while !done.load(SeqCst) {
+                    // never run far ahead of the reloader (slow builds): the callers' event barrier
+                    // has to be reachable
+                    let backlog = (mem.sent() as u64).saturating_sub(cache.verif_events_handled().unwrap_or(0) as u64);
+                    if backlog > 64 {
+                        std::thread::yield_now();
+                        continue;
+                    }
                     let burst: Vec<OwnedDirEntry> = (0..r.range(1, 8))
                         .map(|_| match r.below(4) {
                             0 => OwnedDirEntry::File(format!("shared.s{}", r.below(4)).as_str().into(), "a".into()),
@@ -442,6 +481,7 @@ fn child(args: &Args, mut rep: Report, cfg: &Cfg) -> Report {
     rep.count("hot_reload_calls_completed", completed);
     rep.count("rounds_with_2plus_callers_inside", rounds_overlapped.load(SeqCst));
     rep.count("new_assets_loaded_inside_reloads", FANOUT_LOADS.load(SeqCst));
+    rep.count("reloads_logged_by_the_crate", crate::logcap::reloadings());
     rep.set_max("max_callers_inside_simultaneously", max_inside.load(SeqCst) as u64);
     let stale = stale.into_inner().unwrap();
     if !stale.is_empty() {
@@ -481,6 +521,8 @@ pub fn configs(args: &Args) -> Vec<Cfg> {
     v.push(Cfg { callers: 2, loaders: 0, bursts: false, calls: (n(300, 3000) as f64 * args.scale) as usize + 10, shape: "static-stream" });
     v.push(Cfg { callers: 1, loaders: 0, bursts: false, calls: (n(120, 1200) as f64 * args.scale) as usize + 8, shape: "fanout" });
     v.push(Cfg { callers: 3, loaders: 2, bursts: true, calls: (n(120, 1200) as f64 * args.scale) as usize + 8, shape: "fanout" });
+    v.push(Cfg { callers: 2, loaders: 0, bursts: false, calls: (n(150, 1500) as f64 * args.scale) as usize + 10, shape: "inserted-key" });
+    v.push(Cfg { callers: 1, loaders: 0, bursts: false, calls: (n(30, 300) as f64 * args.scale) as usize + 6, shape: "deep-chain" });
     // here `calls` is the number of caches created; 40 calls per caller and cache
     v.push(Cfg { callers: 1, loaders: 0, bursts: false, calls: (n(150, 1500) as f64 * args.scale) as usize + 5, shape: "sender-dropped" });
     v.push(Cfg { callers: 4, loaders: 0, bursts: false, calls: (n(150, 1500) as f64 * args.scale) as usize + 5, shape: "sender-dropped" });
